@@ -46,12 +46,16 @@ pub struct Report {
     pub violations: Vec<(String, PathBuf)>,
     pub replays_run: u64,
     pub extra: BTreeMap<String, serde_json::Value>,
+    /// sums of counters whose name starts with "n_" (e.g. number of damages / images / schedules evaluated)
+    pub sums: BTreeMap<String, u64>,
 }
 
 impl Report {
     pub fn merge_stats(&mut self, s: &Stats) {
         for (k, v) in s.c.iter() {
-            if *v > 0 {
+            if k.starts_with("n_") {
+                *self.sums.entry((*k).to_string()).or_insert(0) += *v;
+            } else if *v > 0 {
                 *self.classes.entry((*k).to_string()).or_insert(0) += 1;
             }
         }
@@ -74,6 +78,9 @@ impl Report {
         self.replays_run += o.replays_run;
         for (k, v) in o.extra {
             self.extra.insert(k, v);
+        }
+        for (k, v) in o.sums {
+            *self.sums.entry(k).or_insert(0) += v;
         }
     }
 }
@@ -389,6 +396,7 @@ pub fn finish(id: &str, level: &str, tier: &str, seed: u64, rule: &str, assumpti
         "classes_cases_with": rep.classes,
         "excluded_known": rep.known,
         "replays_run": rep.replays_run,
+        "totals": rep.sums,
         "exhaustive": false,
     });
     for (k, v) in rep.extra.iter() {
